@@ -38,7 +38,8 @@ type Case struct {
 func (c Case) Key() string { return c.Op + "/" + c.Target + "/" + c.Kind }
 
 // Select says which operations and which monitor groups a property is concerned with.
-// Monitor groups: image, checksum, export, locks, restart, journal, backup, effect.
+// Monitor groups: image, chain, checksum, export, locks, restart, journal, backup, effect; for the replica-side
+// operations (cluster.go): replica-image, replica-checksum, replica-chain, replica-restart.
 type Select struct {
 	Ops       []string
 	Monitors  []string
@@ -110,6 +111,8 @@ type world struct {
 	plan    sim.Plan
 	variant string
 
+	reopened bool
+	old      []*sim.Node
 	exitOnce sync.Once
 	mu       sync.Mutex
 	armed    bool
@@ -371,6 +374,9 @@ func (w *world) disarm() []string {
 func (w *world) close() {
 	_ = core.Try(func() { w.conn.Close() })
 	_ = core.Try(w.node.Close)
+	for _, n := range w.old {
+		_ = core.Try(n.Close)
+	}
 	_ = os.RemoveAll(w.dir)
 }
 
@@ -484,6 +490,38 @@ func (w *world) op() (out outcome) {
 		out.err = w.conn.RemoveDB()
 	case "backup_sync":
 		out.err = w.node.Store.SyncBackup(ctx)
+	case "open":
+		// the process dies and is started again: the new process works on the directory as the old one left it (a
+		// copy taken now, with the old process's files as they are); the fault hits the new process
+		w.mu.Lock()
+		armedNow := w.armed
+		w.armed = false
+		w.mu.Unlock()
+		crashDir := filepath.Join(w.dir, "crashed")
+		if !fileExists(crashDir) {
+			if err := sim.CopyDir(filepath.Join(w.dir, "data"), crashDir); err != nil {
+				core.Infra("faults: copy for restart: %v", err)
+			}
+		}
+		_ = core.Try(func() { w.conn.Close() })
+		w.mu.Lock()
+		w.armed = armedNow
+		w.mu.Unlock()
+		node, err := sim.OpenNode(sim.NodeOpts{Dir: crashDir, Primary: true, Configure: func(s *litefs.Store) {
+			osw := s.OS.(*sim.OSWrap)
+			osw.Before, osw.Mangle = w.before, w.mangle
+		}})
+		out.err = err
+		if err == nil {
+			w.old = append(w.old, w.node)
+			w.node = node
+			w.node.Cache.Fail = w.notify
+			w.conn = w.node.Connect(dbName, 104)
+			ref := w.pg.Ref
+			w.pg = sim.NewPager(w.conn, w.l, sim.PagerOpts{Sector: 512, Busy: time.Second})
+			w.pg.Ref = ref
+			w.reopened = true
+		}
 	}
 	return out
 }
@@ -541,7 +579,11 @@ func Run(rep *core.Report, args *core.Args, sel Select) {
 		go func() {
 			defer wg.Done()
 			for j := range ch {
-				sweep(rep, sel, j.c, j.l, j.v)
+				if clusterOps[j.c.Op] {
+					sweepCluster(rep, sel, j.c, j.l)
+				} else {
+					sweep(rep, sel, j.c, j.l, j.v)
+				}
 			}
 		}()
 	}
@@ -624,7 +666,28 @@ func one(rep *core.Report, sel Select, c Case, l sim.Layout, variant string, k i
 		return
 	}
 	lockPg := l.LockPgno()
-	if c.Target == "rb_hot" && c.Op != "recover" {
+	if c.Op == "open" {
+		// a start that failed is repeated (the supervisor restarts the process); the repeated start must work
+		if o.err != nil {
+			if o2 := w.op(); o2.err != nil {
+				v("restart", "repetition-fails", "the store could not be opened once (one failing call); the next start, without any fault, fails too", map[string]any{"error": sim.ErrString(o2.err)})
+				return
+			}
+		}
+		if !w.reopened {
+			return
+		}
+		now := w.factsNow()
+		if ok, diff := now.image.Equal(l.ImageOf(refBefore), lockPg); !ok {
+			v("restart", "restarted-image-is-not-the-committed-image", "after the (repeated) start the database is not the committed image", map[string]any{"diff": diff})
+		}
+		if now.txid != before.txid || now.chk != before.chk {
+			v("restart", "restart-changed-the-position", "after the (repeated) start the position differs from the one before the restart", map[string]any{"before": fmt.Sprintf("%d/%016x", before.txid, before.chk), "after": fmt.Sprintf("%d/%016x", now.txid, now.chk)})
+		}
+		before.image = l.ImageOf(refBefore)
+		o.err = nil
+	}
+	if c.Target == "rb_hot" && c.Op != "recover" && c.Op != "open" {
 		// The reference is the committed image. While the dead connection's journal is still hot the file holds
 		// uncommitted pages by design; the next opener rolls it back, which is played here without a fault.
 		before.image = l.ImageOf(refBefore)
@@ -713,6 +776,8 @@ func one(rep *core.Report, sel Select, c Case, l sim.Layout, variant string, k i
 				group = "image"
 			case "drop":
 				group = "effect"
+			case "open":
+				group = "restart"
 			}
 			v(group, "repetition-fails", "the same operation, repeated without any fault, fails", map[string]any{"error": sim.ErrString(o2.err)})
 		} else {
@@ -759,7 +824,7 @@ func one(rep *core.Report, sel Select, c Case, l sim.Layout, variant string, k i
 		}
 	}
 	// ---- the application goes on: a commit that continues the WAL, a checkpoint, a commit into a fresh log ----
-	if sel.has("checksum") || sel.has("image") || sel.has("effect") {
+	if sel.has("checksum") || sel.has("image") || sel.has("effect") || sel.has("chain") {
 		if w.db().Mode() == litefs.DBModeWAL && w.walAsPagerKnowsIt() {
 			if w.nextCommit(v, lockPg, true) {
 				chk("after-the-next-wal-commit")
@@ -792,7 +857,7 @@ func one(rep *core.Report, sel Select, c Case, l sim.Layout, variant string, k i
 		}
 		w.pg.ForgetWAL()
 	}
-	if sel.has("checksum") || sel.has("image") || sel.has("effect") {
+	if sel.has("checksum") || sel.has("image") || sel.has("effect") || sel.has("chain") {
 		if w.nextCommit(v, lockPg, false) {
 			chk("after-the-next-commit")
 		}
@@ -857,7 +922,7 @@ func (w *world) nextCommit(v func(group, monitor, what string, detail map[string
 		v("effect", "next-commit-not-captured/"+how, "the commit after the failed operation did not advance the position by one", map[string]any{"before": cur.txid, "after": after.txid})
 	}
 	if probs := sim.ChainProblems(w.node.DBDir(dbName), after.txid, after.chk); len(probs) > 0 {
-		v("image", "log-is-not-a-chain-to-the-position/"+how, "after the failed operation and one more commit the transaction files are not one chain ending at the position", map[string]any{"problems": probs})
+		v("chain", "log-is-not-a-chain-to-the-position/"+how, "after the failed operation and one more commit the transaction files are not one chain ending at the position", map[string]any{"problems": probs})
 	}
 	return true
 }
